@@ -120,7 +120,11 @@ def renderXmlWith (esc : Escapers) (env : Env) (pr : TokenParams) (s : FStack) (
     (parent : Option Tree) : Output → Outcome XotError (FStack × OutputToken)
   | .startTagOpen name =>
     let s' := s.push node.nsDecls
-    match s'.elementFullname env name with
+    -- an element in no namespace cannot be written unprefixed where a default namespace is in
+    -- scope: `Err(Error::MissingPrefix("".to_string()))`
+    if env.nsOfName name == Env.noNamespace && s'.hasDefaultNamespace then
+      .err (.missingPrefix Env.noNamespace)
+    else match s'.elementFullname env name with
     | .ok full => .ok (s', ⟨false, fmt fmtStartTagOpen [full]⟩)
     | .error e => .err e
   | .startTagClose =>
